@@ -91,6 +91,17 @@ SPECIAL_DOCS = [
     ["F\ta\tr+\t0\t1\t0\t1\t*"],
     ["S\ta\t*", "C\ta\t+\ta\t+\t0\t*"],
     ["#"], ["# "], ["#\t"], ["H"], ["S"], ["L"], ["\t"], ["X"], ["S\t"], ["H\t"],
+    # an identifier first used as a reference to an undefined segment, then defined as another record type
+    ["E\te1\tx+\ty-\t0\t1\t0\t1\t*", "G\tx\ty+\ty-\t5\t*", "S\ty\t4\tACGT"],
+    ["F\tx\tr+\t0\t1\t0\t1\t*", "O\tx\ty+", "S\ty\t4\t*"],
+    ["E\te1\tx+\ty-\t0\t1\t0\t1\t*", "U\tx\ty", "E\ty\tx+\tx-\t0\t1\t0\t1\t*"],
+    ["L\tx\t+\ty\t-\t*", "P\tx\ty+\t*", "S\ty\t*"],
+    ["C\tx\t+\ty\t-\t0\t*", "L\ty\t+\ty\t-\t*\tID:Z:x"],
+    ["G\tg\tx+\ty-\t5\t*", "E\tx\ty+\ty-\t0\t1\t0\t1\t*", "S\tx\t4\t*"],
+    # over-long records: JSON nested deeper than the interpreter's recursion limit
+    ["S\ta\t*\txx:J:" + "[" * 30000 + "]" * 30000],
+    ["H\txx:J:" + '{"a":' * 20000 + "1" + "}" * 20000],
+    ["S\ta\t4\t*\txx:Z:" + "z" * 50000],
 ]
 
 
@@ -100,8 +111,10 @@ def gen(streams, tier, i):
     fr = streams.get("faults")
     ops = []
     vlevel = cfg.choice([0, 1, 1, 2, 3])
-    if cfg.random() < 0.12:
+    if cfg.random() < 0.15:
         lines = list(cfg.choice(SPECIAL_DOCS))
+        if cfg.random() < 0.5:
+            cfg.shuffle(lines)
         version = cfg.choice([None, None, "gfa1", "gfa2"])
         docv = "gfa2"
     else:
